@@ -51,6 +51,7 @@ def algoLabels (cfg : Cfg) (st : State) (t : Int) (dsts : List Pos) : Option (Li
 /-- the labels one `next_level` gives: `SubnetOversizeException` (`none`) when a sub-net exceeds
 `MAX_SUB_NET_SIZE` (subnet.py `subnet_linker_*`), else the deterministic step.  (Same convention
 as the driver op `LALGO`.) -/
+-- mirrors trackpy/linking/linking.py:516-522, subnetlinker.py:24-45 (`max_size`: more sources than MAX_SUB_NET_SIZE raises)
 def jobLabels (cfg : Cfg) (st : State) (t : Int) (dsts : List Pos) : Option (List Nat) :=
   if oversizeB cfg (stepGroups cfg st t dsts) then none else algoLabels cfg st t dsts
 
